@@ -77,6 +77,10 @@ KeyHdrs(spec, name) ==
       [] OTHER -> <<KeyLine(name, spec)>>
 (* by construction: some well-formed x-api-key line carries the exact key *)
 Presents(spec) == spec \in {"exact", "tight", "padded", "dupEW", "dupWE"}
+(* by construction: the value of some x-api-key line begins with the exact key.  A read boundary right after the  *)
+(* key bytes makes the scanner hand the line over as it is (Token, CODE-DERIVED), so "s3cR7kx" can pass as       *)
+(* "s3cR7k" - the sender still had to know the key.                                                               *)
+KeyBytesSent(spec) == Presents(spec) \/ spec = "longer"
 
 ClLine(name, val) == <<name, ":", " ">> \o val
 Num(n) == <<ToString(n)>>
@@ -114,7 +118,7 @@ Shape(st, ks, cs, order, extra, kname, cname, blank, bn, decl) ==
         ex == IF extra = "none" THEN <<>> ELSE <<ExtraTab[extra]>>
         hs == ex \o (IF order = "ck" THEN ch \o kh ELSE kh \o ch)
     IN [req |-> [start |-> StartTab[st].a, hdrs |-> hs, blank |-> blank, body |-> body],
-        presents |-> Presents(ks),
+        presents |-> Presents(ks), keysent |-> KeyBytesSent(ks),
         tags |-> [m |-> StartTab[st].m, start |-> st, key |-> ks, cl |-> cs, order |-> order, extra |-> extra,
                   kname |-> kname, cname |-> cname, blank |-> ToString(blank), body |-> bn, decl |-> ToString(decl)]]
 Std(st, ks, cs, bn) == Shape(st, ks, cs, "ck", "none", "X-API-Key", "Content-Length", 1, bn, -1)
@@ -152,19 +156,19 @@ RECURSIVE ManyLines(_)
 ManyLines(k) == IF k = 0 THEN <<>> ELSE BigLine \o ManyLines(k - 1)
 BigShapes == {
   [req |-> [start |-> StartTab.post.a, hdrs |-> <<ClLine("Content-Length", <<"60014">>)>>, blank |-> 1,
-            body |-> <<"change-query", "(", "%X", ")">>], presents |-> FALSE,
+            body |-> <<"change-query", "(", "%X", ")">>], presents |-> FALSE, keysent |-> FALSE,
    tags |-> [m |-> "POST", start |-> "post", key |-> "absent", cl |-> "ok", body |-> "big60k"]],
   [req |-> [start |-> StartTab.post.a, hdrs |-> <<ClLine("Content-Length", <<"70014">>)>>, blank |-> 1,
-            body |-> <<"change-query", "(", "%Y", ")">>], presents |-> FALSE,
+            body |-> <<"change-query", "(", "%Y", ")">>], presents |-> FALSE, keysent |-> FALSE,
    tags |-> [m |-> "POST", start |-> "post", key |-> "absent", cl |-> "ok", body |-> "big70k"]],
   [req |-> [start |-> StartTab.post.a, hdrs |-> <<ClLine("Content-Length", <<"1048577">>)>>, blank |-> 1,
-            body |-> <<"change-query", "(", "%X", ")">>], presents |-> FALSE,
+            body |-> <<"change-query", "(", "%X", ")">>], presents |-> FALSE, keysent |-> FALSE,
    tags |-> [m |-> "POST", start |-> "post", key |-> "absent", cl |-> "huge", body |-> "big60k"]],
   [req |-> [start |-> StartTab.post.a, hdrs |-> <<ClLine("Content-Length", <<"1048576">>)>>, blank |-> 1,
-            body |-> <<"change-query", "(", "%X", ")">>], presents |-> FALSE,
+            body |-> <<"change-query", "(", "%X", ")">>], presents |-> FALSE, keysent |-> FALSE,
    tags |-> [m |-> "POST", start |-> "post", key |-> "absent", cl |-> "max-short", body |-> "big60k"]],
   [req |-> [start |-> StartTab.post.a, hdrs |-> <<ClLine("Content-Length", <<"1020048">>)>>, blank |-> 1,
-            body |-> <<"change-query", "(">> \o ManyLines(17) \o <<")">>], presents |-> FALSE,
+            body |-> <<"change-query", "(">> \o ManyLines(17) \o <<")">>], presents |-> FALSE, keysent |-> FALSE,
    tags |-> [m |-> "POST", start |-> "post", key |-> "absent", cl |-> "ok", body |-> "big1m-lines"]] }
 
 ShapeSeq == SetToSeq(AllShapes)
